@@ -84,6 +84,19 @@ pub fn customs_remove_raw(name: &str, wasm: &[u8], out: &mut Vec<Json>) {
     }
 }
 
+/// C12 (API): a typed custom section can be added, found and removed by type without touching the uninterpreted ones
+pub fn customs_typed(name: &str, wasm: &[u8], out: &mut Vec<Json>) {
+    #[derive(Debug)] struct Probe(Vec<u8>);
+    impl CustomSection for Probe { fn name(&self) -> &str { "verif-typed-probe" } fn data(&self, _: &IdsToIndices) -> std::borrow::Cow<[u8]> { std::borrow::Cow::Borrowed(&self.0) } }
+    let a = match amod::decode(wasm) { Ok(a) => a, Err(_) => return }; let want = raw_customs(&a);
+    let r = catch(|| { let mut m = Module::from_buffer(wasm).ok()?; m.customs.add(Probe(vec![1, 2, 3])); let found = m.customs.get_typed::<Probe>().map(|p| p.0.clone());
+        let with = m.emit_wasm(); let removed = m.customs.delete_typed::<Probe>().map(|p| p.0.clone()); let still = m.customs.get_typed::<Probe>().is_some(); let without = m.emit_wasm(); Some((found, with, removed, still, without)) });
+    if let Some(Some((found, with, removed, still, without))) = r {
+        let rc = |b: &[u8]| amod::decode(b).ok().map(|x| { let mut v = raw_customs(&x); let probe = v.iter().filter(|c| c.0 == "verif-typed-probe").count(); v.retain(|c| c.0 != "verif-typed-probe"); (v, probe) });
+        let ok = found == Some(vec![1, 2, 3]) && removed == Some(vec![1, 2, 3]) && !still && rc(&with) == Some((want.clone(), 1)) && rc(&without) == Some((want.clone(), 0));
+        if !ok { out.push(v("customs-typed-api-wrong", "C12", format!("{}: add / get_typed / delete_typed of a typed custom section: found {:?}, removed {:?}, still there {}, uninterpreted sections with it {:?}, without it {:?}", name, found, removed, still, rc(&with).map(|x| (x.0.len(), x.1)), rc(&without).map(|x| (x.0.len(), x.1))), wasm, String::new(), String::new())); } }
+}
+
 /// C08: repeated emits on one Module are byte-identical; re-parsing the output and emitting again reproduces it.
 pub fn determinism(name: &str, wasm: &[u8], out: &mut Vec<Json>) {
     for pct in [false, true] {
@@ -105,8 +118,10 @@ pub fn determinism(name: &str, wasm: &[u8], out: &mut Vec<Json>) {
             out.push(v("not-a-fixpoint", "C08", format!("{}: with generate_synthetic_names_for_anonymous_items, re-parsing walrus's own output and emitting again does not reproduce it ({} vs {} bytes; differing: {:?})", name, a.len(), a2.len(), which), wasm, crate::c03::hex(&a2), crate::c03::hex(&a))); } }
     // the file entry points read and write the very same bytes: emit_wasm_file = emit_wasm, Module::from_file = Module::from_buffer
     { let path = std::env::temp_dir().join(format!("vh-emit-file-{}.wasm", std::process::id()));
-      if let Some(Some((direct, via_file, reread))) = catch(|| { let mut m = Module::from_buffer(wasm).ok()?; let direct = m.emit_wasm(); m.emit_wasm_file(&path).ok()?; let via_file = std::fs::read(&path).ok()?;
-            let reread = Module::from_file(&path).ok()?.emit_wasm(); Some((direct, via_file, reread)) }) {
+      if let Some(Some((direct, via_file, reread))) = catch(|| { let mut m = Module::from_buffer(wasm).ok()?; let direct = m.emit_wasm();
+            // the path already holds a LONGER file (an earlier, larger build of the same output path): it must be replaced, not overwritten in place
+            std::fs::write(&path, vec![0xAAu8; direct.len() + 97]).ok()?; m.emit_wasm_file(&path).ok()?; let via_file = std::fs::read(&path).ok()?;
+            let reread = Module::from_file(&path).ok().map(|mut m2| m2.emit_wasm()).unwrap_or_default(); Some((direct, via_file, reread)) }) {
           if direct != via_file { out.push(v("repeated-emit-differs", "C08", format!("{}: emit_wasm_file writes other bytes ({}) than emit_wasm returns ({})", name, via_file.len(), direct.len()), wasm, crate::c03::hex(&via_file), crate::c03::hex(&direct))); }
           if let Some(Some(a2)) = catch(|| { Some(Module::from_buffer(&direct).ok()?.emit_wasm()) }) { if a2 != reread { out.push(v("not-a-fixpoint", "C08", format!("{}: Module::from_file and Module::from_buffer of the same bytes are emitted differently", name), wasm, crate::c03::hex(&reread), crate::c03::hex(&a2))); } } }
       let _ = std::fs::remove_file(&path); }
@@ -182,6 +197,17 @@ pub fn config(name: &str, wasm: &[u8], out: &mut Vec<Json>) {
                 cur = o; }
             _ => break }
     }
+    // the producers API: add_language / add_sdk / add_processed_by record (name, version) in their field exactly once (the version of an existing
+    // name is replaced in place, a new name is appended, a missing field is created at the end), every other entry stays
+    { let r = catch(|| { let mut m = Module::from_buffer(wasm).ok()?; m.producers.add_language("verif-lang", "1"); m.producers.add_sdk("verif-sdk", "2"); m.producers.add_processed_by("verif-tool", "3");
+            m.producers.add_language("verif-lang", "1.1"); Some(m.emit_wasm()) });
+      if let Some(Some(o)) = r { if let Some(p) = prod_of(&o) {
+          let cnt = |field: &str, nm: &str, ver: &str| p.iter().filter(|f| f.0 == field).map(|f| f.1.iter().filter(|x| x.0 == nm && x.1 == ver).count()).sum::<usize>();
+          let any = |field: &str, nm: &str| p.iter().filter(|f| f.0 == field).map(|f| f.1.iter().filter(|x| x.0 == nm).count()).sum::<usize>();
+          let fields_once = ["language", "sdk", "processed-by"].iter().all(|f| p.iter().filter(|x| &x.0 == f).count() <= 1 || input_prod.iter().filter(|x| &x.0 == f).count() > 1);
+          let kept = input_prod.iter().all(|f| f.1.iter().all(|x| x.0 == "walrus" || p.iter().any(|g| g.0 == f.0 && g.1.iter().any(|y| y.0 == x.0))));
+          if cnt("language", "verif-lang", "1.1") != 1 || any("language", "verif-lang") != 1 || cnt("sdk", "verif-sdk", "2") != 1 || cnt("processed-by", "verif-tool", "3") != 1 || !fields_once || !kept {
+              out.push(v("producers-api-wrong", "C14", format!("{}: after add_language / add_sdk / add_processed_by the producers section is {:?}", name, p), wasm, String::new(), format!("{:?}", input_prod))); } } } }
     // the parse callback: exactly once per successful parse, never on a failed one
     use std::sync::atomic::{AtomicUsize, Ordering}; use std::sync::Arc;
     // two inputs that only the END-of-module checks of the validator reject: a function section without a code section, a data count without data
@@ -455,6 +481,20 @@ pub fn gc(name: &str, wasm: &[u8], out: &mut Vec<Json>) {
     let (o1, o2) = match r { Some(Some(x)) => x, Some(None) => return, None => { out.push(v("gc-panics", "C06 C02", format!("{}: gc + emit panics", name), wasm, String::new(), String::new())); return; } };
     if let Err(e) = amod::validate(&o1, feats) { let class = if e.contains("undeclared function reference") { undeclared_class(&a) } else { "gc-output-invalid" };
         out.push(v(class, "C06 C02", format!("{}: module is invalid after gc: {}", name, e), wasm, crate::c03::hex(&o1), String::new())); }
+    // roots contributed by a CUSTOM SECTION (CustomSection::add_gc_roots): with every export, the start function and every segment-independent root gone,
+    // a custom section roots every local function, table, memory and global - everything they refer to must be kept: emit must not panic, the output validates,
+    // and no rooted function is lost
+    { #[derive(Debug)] struct RootAll { funcs: Vec<FunctionId>, tables: Vec<TableId>, mems: Vec<MemoryId>, globals: Vec<GlobalId> }
+      impl CustomSection for RootAll { fn name(&self) -> &str { "verif-root-all" } fn data(&self, _: &IdsToIndices) -> std::borrow::Cow<[u8]> { std::borrow::Cow::Borrowed(&[]) }
+          fn add_gc_roots(&self, roots: &mut passes::Roots) { for f in &self.funcs { roots.push_func(*f); } for t in &self.tables { roots.push_table(*t); } for x in &self.mems { roots.push_memory(*x); } for g in &self.globals { roots.push_global(*g); } } }
+      let r = catch(|| { let mut m = Module::from_buffer(wasm).ok()?; let ex: Vec<_> = m.exports.iter().map(|e| e.id()).collect(); for e in ex { m.exports.delete(e); } m.start = None;
+            let funcs: Vec<FunctionId> = m.funcs.iter_local().map(|(id, _)| id).collect(); let n = funcs.len();
+            m.customs.add(RootAll { funcs, tables: m.tables.iter().map(|t| t.id()).collect(), mems: m.memories.iter().map(|x| x.id()).collect(), globals: m.globals.iter().map(|g| g.id()).collect() });
+            passes::gc::run(&mut m); let kept = m.funcs.iter_local().count(); Some((m.emit_wasm(), n, kept)) });
+      match r { None => out.push(v("gc-panics", "C06 C02", format!("{}: gc + emit panics when a custom section roots every local function, table, memory and global", name), wasm, String::new(), String::new())),
+          Some(Some((o, n, kept))) => { if kept != n { out.push(v("gc-drops-reachable", "C06", format!("{}: a custom section roots {} local functions, {} are left after gc", name, n, kept), wasm, String::new(), String::new())); }
+              if let Err(e) = amod::validate(&o, feats) { if !e.contains("undeclared function reference") || undeclared_class(&a) != "gc-output-invalid:undeclared-function-reference:every-declarer-unreachable" { out.push(v("gc-output-invalid", "C06 C02", format!("{}: module is invalid after gc with roots from a custom section: {}", name, e), wasm, crate::c03::hex(&o), String::new())); } } }
+          _ => {} } }
     // the emit-time maps seen by a custom section when the module is emitted after the pass (C19)
     if let Some(Some(Ok(oo))) = catch(|| { let mut m = Module::from_buffer(wasm).ok()?; passes::gc::run(&mut m); Some(crate::body::observe_module(m)) }) { emit_maps(&format!("{} (after gc)", name), wasm, &oo.module, &oo.em, &oo.aout, out); }
     let b = match amod::decode(&o1) { Ok(b) => b, Err(_) => return };
@@ -497,5 +537,5 @@ pub fn all_module_oracles(name: &str, wasm: &[u8], out: &mut Vec<Json>) {
     }
     // names again with synthetic names switched on: every real name of the input stays where it was
     { let mut scfg = ModuleConfig::new(); scfg.generate_producers_section(false).generate_synthetic_names_for_anonymous_items(true); if let Some(Ok(obs)) = catch(|| observe(wasm, &mut scfg)) { names(&format!("{} (synthetic names on)", name), wasm, &obs, true, out); } }
-    customs(name, wasm, out); customs_remove_raw(name, wasm, out); determinism(name, wasm, out); config(name, wasm, out); gc(name, wasm, out); emit_maps_after_import_move(name, wasm, out); emit_maps_after_import_added(name, wasm, out);
+    customs(name, wasm, out); customs_remove_raw(name, wasm, out); customs_typed(name, wasm, out); determinism(name, wasm, out); config(name, wasm, out); gc(name, wasm, out); emit_maps_after_import_move(name, wasm, out); emit_maps_after_import_added(name, wasm, out);
 }
